@@ -70,6 +70,12 @@ def _build():
         ha[p] = 'n'
         _add('attr-short[p=%d]' % p, Q(items=[attr('n'), NR]), ha, quick=(p != 1))
     _add('attr-short-join[b]', Q(items=[attr('n', 'b'), attr('n')], join=Join('JOIN', [(0, 0)], 'a1 == b1')), ['k', 'n'], a=['ks', 'ks'], quick=True, b=['kss', 'kss'], hb=['j', None, 'n'], krange=2)
+    # columns whose names collide with built-in variables: a.NR is the COLUMN named NR when the header has one
+    for p in (0, 2):
+        ha = [None, None, None]
+        ha[p] = 'NR'
+        _add('attr-NR[p=%d]' % p, Q(items=[attr('NR'), NR]), ha, quick=True)
+    _add('attr-NF-join[b]', Q(items=[attr('NF', 'b'), attr('NR'), BNR], join=Join('JOIN', [(0, 0)], 'a1 == b1')), ['k', 'NR'], a=['ks', 'ks'], quick=True, b=['ks', 'ks'], hb=['j', 'NF'], krange=2)
     # a["name"] / a['name'] with hostile concrete names at every position
     n = 0
     for nm in HOSTILE_NAMES:
@@ -86,6 +92,8 @@ def _build():
             _add('sub[%s|%s|p=%d]' % (nm.encode('unicode_escape').decode(), 'dq' if quote == '"' else 'sq', p), Q(items=[it, NR]), ha, quick=(n % 3 == 0))
     _add('sub-update[x y]', Q(update=[('a["x y"]', 1, 'a.name', lambda e: e.an('name'))]), ['name', 'x y', 'z'], quick=True)
     _add('sub-join[b]', Q(items=[sub('k', table='b'), attr('v', 'b'), attr('name')], join=Join('JOIN', [(0, 0)], 'a.name == b["k"]')), ['name', 'q'], a=['ks', 'ks'], quick=True, b=['ks', 'ks'], hb=['k', 'v'], krange=2)
+    # direct mode: a column NAMED like a positional variable denotes its header position, not that position
+    _add('direct[a1-at-2]', Q(items=[Item('a1', lambda e: e.an('a1'), name=('var', 'a1')), Item('a3', lambda e: e.an('a3'), name=('var', 'a3')), Item('x', lambda e: e.an('x'), name=('var', 'x'))]), ['x', 'a1', 'a3'], quick=True, normalize=False)
     # direct mode: bare column names are variables
     for p in (0, 1, 2):
         ha = ['c%d' % i for i in range(3)]
@@ -111,7 +119,11 @@ T = %s
 q = qh.with_headers(Q, HA, None)
 exp = rel.run(q, qh.copy_table(T), None)
 got = qh.run_rbql(TEXT, T, None, HA, None, normalize=False)
-return qh.normalise(got, exp)
+g, e = qh.normalise(got, exp)
+# C09 is about BINDING: rows, warnings and errors are compared; how the output header names a bare direct-mode variable is C07's business
+if g[0] == 'ok' and e[0] == 'ok':
+    return ((g[0], g[1], g[3]), (e[0], e[1], e[3]))
+return (g, e)
 ''' % texpr)
     imports = 'from vf import qh\nfrom vf.refmodel import rel\nfrom vf.props import c09 as P\nQ = P.CASES[%r]\nTEXT = %r\nHA = %r\n' % (name, rel.render(CASES[name]), s['ha'])
     src = harness(imports, pa, pb + po, body)
